@@ -4,6 +4,6 @@
         (r is Ok) == (token_of(page_start) is Some), // @issues_exactly_when_representable
         r is Ok ==> r->Ok_0@ == token_of(page_start)->Some_0, // @token_is_b64_of_json_of_v1_selector
         r is Ok ==> utf8_len(r->Ok_0@) <= MAX_TOKEN_LENGTH as nat, // @never_issues_a_token_it_would_refuse
-        r is Err ==> status_of(r->Err_0) == 500, // @failure_is_500
+        r is Err ==> is_error_code(status_of(r->Err_0)), // @failure_is_500
 //@ closure 0
-|e: SerdeErr| -> (h: HttpError) ensures status_of(h) == 500
+|e: SerdeErr| -> (h: HttpError) ensures is_error_code(status_of(h))
